@@ -1,9 +1,14 @@
-from ast import Attribute, Subscript, Load, NodeVisitor, Name as AstName
+from ast import Attribute, Subscript, Load, NodeVisitor, Name as AstName, walk
 
 from .compat import PY2
 from .scope import FuncScope, Flow, SourceScope, ClassScope, get_first_body_node_loc
 from .name import AssignedName, ImportedName
 from .util import (np, get_expr_end, get_indexes_for_target, visitor, get_any_marked_name)
+
+try:
+    from ast import NamedExpr
+except ImportError:
+    class NamedExpr: pass  # type: ignore[no-redef]
 
 if PY2:
     UNSUPPORTED_ASSIGMENTS = Subscript
@@ -169,6 +174,39 @@ class extract_visitor(NodeVisitor):
         body = self.visit_in_flow(node.body, self.make_flow('if', [cur]))
         orelse = self.visit_in_flow(node.orelse, self.make_flow('else', [cur]))
         self.flow = self.make_flow('join', [body, orelse])
+        self.flow.scope.flow = self.flow
+
+    def _binds(self, nodes):
+        # type: (t.Iterable[ast.AST]) -> bool
+        # does evaluating one of these expressions bind a name (a walrus)?
+        return any(isinstance(it, NamedExpr) for n in nodes for it in walk(n))
+
+    def visit_IfExp(self, node):
+        # type: (ast.IfExp) -> None
+        if not self._binds([node.body, node.orelse]):
+            self.generic_visit(node)
+            return
+        # `(x := 1) if c else (x := 2)`: only one of the arms is evaluated
+        self.visit(node.test)
+        cur = self.flow
+        body = self.visit_in_flow(node.body, self.make_flow('ifexp', [cur]))
+        orelse = self.visit_in_flow(node.orelse, self.make_flow('ifexp-else', [cur]))
+        self.flow = self.make_flow('join', [body, orelse])
+        self.flow.scope.flow = self.flow
+
+    def visit_BoolOp(self, node):
+        # type: (ast.BoolOp) -> None
+        if not self._binds(node.values[1:]):
+            self.generic_visit(node)
+            return
+        # `c or (x := 2)`: every operand after the first may be skipped
+        self.visit(node.values[0])
+        ends = [self.flow]
+        cur = self.flow
+        for value in node.values[1:]:
+            cur = self.visit_in_flow(value, self.make_flow('boolop', [cur]))
+            ends.append(cur)
+        self.flow = self.make_flow('join', ends)
         self.flow.scope.flow = self.flow
 
     def visit_For(self, node):
